@@ -393,6 +393,19 @@ func (e *Engine) simple(st *State, fr *Frame, ins ssa.Instruction) bool {
 	case *ssa.MakeInterface:
 		v := e.value(st, fr, x.X)
 		fr.env[x] = Box(x.X.Type(), v)
+		// an in-package error type with `Unwrap() error { return e.<field> }`: the boxed value
+		// wraps what that field holds at this moment (errors.Is / errors.As see through it)
+		if idx, byPtr, ok := e.unwrapField(x.X.Type()); ok {
+			var inner *Term
+			if byPtr {
+				inner = e.load(st, FieldAddr(v, idx), e.site(fr, x))
+			} else if sv := expandZero(v); sv.K == KStruct && idx < len(sv.A) {
+				inner = sv.A[idx]
+			}
+			if inner != nil && inner.K != KUnknown {
+				fr.env[x] = BoxWrapping(x.X.Type(), v, inner)
+			}
+		}
 	case *ssa.ChangeInterface:
 		fr.env[x] = e.value(st, fr, x.X)
 	case *ssa.ChangeType:
